@@ -10,6 +10,8 @@ import Rsp.Model.Log
 import Rsp.Spec.Log
 import Rsp.Model.Radmsg
 import Rsp.Spec.Radmsg
+import Rsp.Model.DynRealm
+
 namespace Drive
 open Rsp
 
@@ -147,8 +149,57 @@ def showSer (r : Radmsg.SerRes) : String :=
   | .fault => "fault:oobWrite"
   | .ok b a => s!"ok {toHex b} {toHex a}"
 
+/-- canonical line of the dynamic-lookup op, as the harness prints it -/
+def showLookup (r : Option (Bytes × DynRealm.Lookup)) : String :=
+  match r with
+  | none => "none"
+  | some (realm, l) =>
+    s!"sub:{toHex realm} arg:{toHex realm} " ++
+    (match l with
+     | .exec file argv => s!"exec:{toHexE file};" ++ ",".intercalate (argv.map toHex)
+     | .dns t n => s!"dns:{t}:{toHex n}")
+where toHexE (b : Bytes) : String := if b.isEmpty then "" else toHex b
+
+/-- C20 stated on the implementation's output: which realm text may start a lookup, and what the
+    outside world may see of it -/
+def dynSpec (cmd id : Bytes) (impl : List String) : String :=
+  let id := cstr id
+  let parts : List Bytes := id.foldr (fun c acc => if c = 64 then [] :: acc else match acc with | h :: t => (c :: h) :: t | [] => [[c]]) [[]]
+  let realm : Option Bytes :=
+    if parts.length < 2 then none else
+    let r := parts.getLast!
+    if r.isEmpty || !(r.all fun c => c = 46 || c = 45 || (48 ≤ c.toNat && c.toNat ≤ 57) || (65 ≤ c.toNat && c.toNat ≤ 90) || (97 ≤ c.toNat && c.toNat ≤ 122)) then none
+    else some r
+  let started := impl.any fun t => t.startsWith "sub:" || t.startsWith "exec:" || t.startsWith "dns:" || t.startsWith "arg:"
+  match realm with
+  | none => if started then "bad C20:lookup-started-without-an-acceptable-realm-part" else "ok"
+  | some r =>
+    let lower := cmd.map Log.toLower
+    let wantDns : Option (Nat × Bytes) :=
+      if lower.take 6 = DynRealm.naptrPrefix then some (35, r)
+      else if lower.take 4 = DynRealm.srvPrefix then some (33, cmd.drop 4 ++ (if cmd.getLast? = some 46 then [] else [46]) ++ r)
+      else none
+    let bad := impl.findSome? fun t =>
+      if t.startsWith "arg:" then (if t = "arg:" ++ toHex r then none else some "bad C20:lookup-argument-is-not-the-realm-text")
+      else if t.startsWith "sub:" then (if t = "sub:" ++ toHex r then none else some "bad C20:sub-realm-not-keyed-by-the-realm-text")
+      else if t.startsWith "exec:" then
+        (if wantDns.isSome then some "bad C20:command-executed-for-a-dns-form"
+         else if t = s!"exec:{toHex cmd};{toHex cmd},{toHex r}" then none else some "bad C20:command-or-argument-vector-differs-from-[command,realm]")
+      else if t.startsWith "dns:" then
+        (match wantDns with
+         | some (ty, n) => if t = s!"dns:{ty}:{toHex n}" then none else some "bad C20:dns-question-not-built-from-exactly-the-realm-text"
+         | none => some "bad C20:dns-question-for-an-external-command")
+      else none
+    match bad with
+    | some b => b
+    | none => if !started then "bad C20:no-lookup-for-an-acceptable-realm" else "ok"
+
 def model (op : String) (args : List String) : String :=
   match op, args with
+  | "dynrealm", [c, i] =>
+    match ofHex c, ofHex i with
+    | some c, some i => showLookup (DynRealm.dynLookup c i)
+    | _, _ => "bad-op"
   | "decttl", [h] =>
     match ofHex h with
     | some v => let r := Ttl.decttl v; s!"{r.1} {toHex r.2}"
@@ -211,6 +262,10 @@ def model (op : String) (args : List String) : String :=
 
 def spec (op : String) (args impl : List String) : String :=
   match op, args, impl with
+  | "dynrealm", [c, i], _ =>
+    match ofHex c, ofHex i with
+    | some c, some i => if impl.any (·.startsWith "crash") then "bad sanitizer-or-crash" else dynSpec c i impl
+    | _, _ => "bad-op"
   | "decttl", [h], [r, h'] =>
     match ofHex h, r.toNat?, ofHex h' with
     | some v, some r, some v' => if Spec.decttlOk v r v' then "ok" else "bad decttl-spec"
